@@ -52,7 +52,8 @@ Section Progress.
     destruct (oi_isbool D o).
     - destruct (negb (Nat.eqb o one)).
       + intros H. apply IH in H. rewrite app_length in H. sz.
-      + intros [= <- <-]. pose proof (residue_size (pre ++ value) after) as Hr.
+      + destruct (dashed (pre ++ value)); [discriminate|].
+        intros [= <- <-]. pose proof (residue_size (pre ++ value) after) as Hr.
         rewrite app_length in Hr. sz.
     - destruct value as [|v0 value].
       + destruct after as [|v1 after']; [discriminate|].
